@@ -286,9 +286,12 @@ under a context `rctx` derived from the batch context by `context.WithCancel(ctx
 by `context.AfterFunc(rpc.Context(), cancel)` — i.e. it ends when the batch context or the call's
 own context ends. Every wait inside `getRegionAndClientForRPC` selects on the context it is given
 (`caller_waits_cancellable`), so a batched call whose own context ends while its region is being
-located is released. (`batch_wait_watches_call_context` covers the wait for the response.) -/
+located is released. (`batch_wait_watches_call_context` covers the wait for the response.) `rctx` is
+declared inside the loop over the batch: every call is located under a context of its own, so the
+cancellation that ends one call's location cannot leak into the next call's. -/
 theorem batch_location_watches_call_context_in_source :
     GV.Gen.Exits.findClientsLocateCtx = ["rctx"] ∧
+    GV.Gen.Exits.findClientsLocateCtxPerCall = true ∧
     GV.Gen.Exits.findClientsWithCancel = ["rctx, cancel = WithCancel(ctx)"] ∧
     GV.Gen.Exits.findClientsAfterFunc = ["rpc.Context(), cancel"] := by decide
 
